@@ -4,3 +4,31 @@ CORE_NOTE = ("Trusted: tokio::sync::Semaphore, std::sync::Mutex and the atomics 
 claim("C01", "dpmc", "stateless model checking of the real pool: preemption/fault-bounded exhaustive schedule + environment exploration (dpmc)",
       "Every schedule (<= p preemptions), every manager/hook outcome assignment and every cancellation (<= f faults) of 2-3 actor scenarios on the real managed pool is executed; an independent object ledger (constructor/destructor log) is checked against max_size after every step and at every Manager::create entry.",
       CORE_NOTE, "DESIGN.md section 5 C01")
+SEQ = "; sequential histories: every operation sequence up to the stated depth with every environment answer and abandonment"
+claim("C02", "dpmc", "stateless model checking of the real pool: bounded exhaustive schedules/faults (H-conc) and operation histories (H-seq)",
+      "All schedules/faults of the C01 scenarios plus 3-getter scenarios, and every history (depth 6/8) of gets, polls, gate completions, cancellations, returns, takes, retains on pools of size 1-2; stranded-waiter oracle at every step/quiescent point, panic and deadlock capture, and an end-of-history capacity probe through the public API only.",
+      CORE_NOTE, "DESIGN.md section 5 C02")
+claim("C03", "dpmc", "stateless model checking: every await point of get() x abandonment (dropped future, injected panic), H-conc and H-seq",
+      "Managers/hooks suspend at every call by default; at each suspension of each get() the explorer tries abandonment (cancel, or a panic injected into the call) while other actors run (p<=2/3) and in every state reachable by a preceding history; detach/destructor ledger, exact status() at the next rest point, stranded-waiter oracle and capacity probe decide.",
+      CORE_NOTE + " Enclosing-deadline abandonment is the same drop of the future (explored under C10 with a virtual clock).", "DESIGN.md section 5 C03")
+claim("C04", "dpmc", "bounded exhaustive fault-sequence enumeration over operation histories of the real pool (H-seq)",
+      "Every assignment of ok/error/delayed-ok/delayed-error (and panic for sync hooks) to the n-th call of create, recycle and each hook for 5 hook layouts (0-2 hooks per kind, sync/async orders), both queue modes, histories of depth 7/9; oracle = per-object ordered call log vs. the reference pipeline, result variants vs. injected errors, rejected objects destroyed+detached exactly once and never seen again.",
+      CORE_NOTE, "DESIGN.md section 5 C04")
+claim("C06", "dpmc", "stateless model checking: close() against every phase of every other operation (H-conc) and at every position of histories (H-seq)",
+      "close() races with waiting/creating/recycling getters, returns, takes, resize, retain, a second close, and dropping every handle; histories with close anywhere. Oracle: gets started after close returned never yield an object, no waiter stays parked, is_closed stays true, status().max_size==0 and no idle object at every later rest point, objects outliving the pool drop without panic.",
+      CORE_NOTE + " A getter that already held its slot when close() returned may finish either way (not covered by the statement).", "DESIGN.md section 5 C06")
+claim("C07", "dpmc", "stateless model checking: resize histories (H-seq) and resize races (H-conc) against a limit-in-force reference",
+      "Every history (depth 5-6/8) over gets, polls, returns, takes, cancels and resize(0..=3) from max_size 0/1/2, plus resize racing with returns, takes, getters, a waiter and another resize; oracle: max_size and idle count right after resize, admission of gets started after the resize vs. ground-truth live objects, waiters woken by a grow, capacity probe equal to the last target.",
+      CORE_NOTE, "DESIGN.md section 5 C07")
+claim("C08", "dpmc", "bounded exhaustive operation-history enumeration against a reference idle queue (H-seq)",
+      "Every history (depth 6/8) of gets, returns in any order, takes, retains, resizes and rejected recycles for Fifo and Lifo; the first object each get() tries must be the reference queue's front/back, create only when the reference queue is exhausted, every manager/hook/destructor call attributed to a running pool operation, nothing during build.",
+      CORE_NOTE + " Order is only defined for sequential histories; background threads would show up as unattributed calls.", "DESIGN.md section 5 C08")
+claim("C09", "dpmc", "stateless model checking: retain/take histories with all predicates as explored choices (H-seq) and retain races (H-conc)",
+      "Each predicate call is an explored binary choice (all subsets, stateful by construction); histories mix retain, take, gets, returns, resize, close; oracle: removed/retained vs. the predicate's answers in queue order, only idle objects offered, detach ledger (exactly once for every object the pool lets go of, never for kept ones), capacity probe.",
+      CORE_NOTE, "DESIGN.md section 5 C09")
+claim("C11", "dpmc", "stateless model checking with a status() observer after every transition",
+      "status() is evaluated by the explorer after every scheduler step at which the slots lock is free (plausibility clauses) and compared exactly with ground truth at every rest point of every H-conc/H-seq execution of the C02 families plus resize/close/retain histories; status() is also interleaved as its own actor.",
+      CORE_NOTE + " Weak-memory effects on the Relaxed counters are outside a sequentially consistent explorer.", "DESIGN.md section 5 C11")
+claim("C13", "dpmc", "bounded exhaustive fault-sequence enumeration over operation histories (H-seq), metrics oracle",
+      "The C04 runs with the metrics oracle: creation instant constant, recycle_count == earlier hand-outs, recycled None until first reuse and monotone, hooks/recycle see the pre-hand-out values, retain sees what Object::metrics() last showed.",
+      CORE_NOTE, "DESIGN.md section 5 C13")
